@@ -47,6 +47,9 @@ def run(ctx):
 
     from ..rules import allocfail
     nf = allocfail.check(ctx, fns)
+    ctx.clause("C19.5 a failed growth leaves counts and capacities unchanged (the object never claims room it does not have)")
+    na = allocfail.check_atomic(ctx, fns)
+    ctx.floor("C19 growth sites with a failure exit", na, 12)
     ctx.count("allocation_null_branches", nf)
     ctx.floor("C19 allocation NULL branches", nf, 100)
 
